@@ -4,6 +4,7 @@ Model: Hpv/Csr.lean (CsrMatrixBuilder.__setitem__ on the flat arrays), Hpv/Matri
 bound checks).  Helper lemmas: Hpv/CsrProofs.lean, Hpv/MatrixProofs.lean.
 -/
 import Hpv.MatrixProofs
+import Hpv.MatrixUnsortedProofs
 
 namespace Hpv.Props.C17
 open Hpv.Csr
@@ -48,6 +49,18 @@ theorem csr_reads (rows : List Row) (ncols r : Nat) (q : Int) (hwf : RowsWF rows
       ∀ c, c ∈ cs ↔ c < ncols ∧ dense rows r c = q :=
   ⟨fun c hc => getCell_spec rows ncols r c hr hc, getRow_spec rows ncols r hwf hr,
    colIndicesOfVal_spec rows ncols r q hwf hnz hr⟩
+
+/-- **Reads of a CSR triple whose rows list their columns in ANY order** (legal, non-canonical CSR given by hand: no column
+twice in a row, every column inside the shape): cell, row and value-to-columns queries still equal the dense matrix it
+represents; the column list has no repeats (its order is the storage order). -/
+theorem csr_reads_any_column_order (rows : List Row) (ncols r : Nat) (q : Int) (hnd : RowsND rows ncols) (hnz : NZ rows)
+    (hr : r < rows.length) :
+    (∀ c, c < ncols → (ofRowsM rows ncols).getCell (r : Int) (c : Int) = .ok (dense rows r c)) ∧
+    (ofRowsM rows ncols).getRow (r : Int) = .ok ((List.range ncols).map (dense rows r)) ∧
+    ∃ cs, (ofRowsM rows ncols).colIndicesOfVal (r : Int) q = .ok cs ∧ cs.Nodup ∧
+      ∀ c, c ∈ cs ↔ c < ncols ∧ dense rows r c = q :=
+  ⟨fun c hc => getCell_spec rows ncols r c hr hc, getRow_spec_nd rows ncols r hnd hr,
+   colIndicesOfVal_spec_nd rows ncols r q hnd hnz hr⟩
 
 /-- **End to end.** A matrix built by any history of non-zero assignments reads back, cell by cell, row by row and
 in value-to-columns queries, exactly like the dense last-write-wins matrix. -/
@@ -104,6 +117,13 @@ example : ((runOps 3 3 [(0, 2, 9), (0, 0, 7), (1, 1, -1), (0, 2, 5)]).toMatrix 3
 example : ((runOps 3 3 [(0, 2, 9), (0, 0, 7), (1, 1, -1), (0, 2, 5)]).toMatrix 3 3).colIndicesOfVal 0 0 = .ok [1] := by
   rfl
 example : ((runOps 3 3 [(0, 2, 9)]).toMatrix 3 3).getCell 0 3 = .error .indexError := by rfl
+example : RowsND [[(2, 5), (0, 7)], [(1, -1)], []] 3 ∧ ¬ RowsWF [[(2, 5), (0, 7)], [(1, -1)], []] 3 := by
+  refine ⟨⟨?_, ?_⟩, ?_⟩
+  · intro row hrow; simp at hrow; rcases hrow with rfl | rfl | rfl <;> decide
+  · intro row hrow p hp; simp at hrow; rcases hrow with rfl | rfl | rfl <;> simp at hp <;> (try rcases hp with rfl | rfl) <;> (try subst hp) <;> decide
+  · intro h
+    have := h.sorted [(2, 5), (0, 7)] (by simp)
+    simp [SortedRow] at this
 example : RowsWF [[(0, 7), (2, 5)], [(1, -1)], []] 3 ∧ NZ [[(0, 7), (2, 5)], [(1, -1)], []] := by
   refine ⟨⟨?_, ?_⟩, ?_⟩ <;> simp [SortedRow, NZ] <;> (intro a b h; omega)
 
